@@ -39,6 +39,12 @@ func (e *Engine) blocked(st *State, what string, ins ssa.Instruction) int {
 		o.Checked++
 		e.reportViolation(st, o, tTrue, e.modelOf(st), site(ins), "goroutine blocks forever ("+what+") while holding a mutex")
 	}
+	if st.noBlock {
+		// the harness declared that no other goroutine exists that could wake this one up
+		o := e.obl("blocked-forever@"+siteFn(ins), "hang")
+		o.Checked++
+		e.reportViolation(st, o, tTrue, e.modelOf(st), site(ins), "goroutine blocks forever: "+what)
+	}
 	e.res.Cuts["blocked:"+what+"@"+siteFn(ins)]++
 	st.path = append(st.path, "blocked:"+what)
 	st.finished = true
@@ -56,6 +62,7 @@ func (e *Engine) havocObserve(st *State, ch *ChanVal, ins ssa.Instruction) (clos
 	e.nondetSeq++
 	b := Var(fmt.Sprintf("hv%d", e.nondetSeq), 0)
 	st.nondets = append(st.nondets, NondetRec{Kind: "bool", term: b})
+	st.nonReplayable = true
 	taken, alive := e.branch(st, b, ins, "havoc-chan")
 	if !alive {
 		return false, false
@@ -257,8 +264,91 @@ func (e *Engine) doSelect(st *State, f *Frame, x *ssa.Select) int {
 	return mk(r.i, -1, nil, false)
 }
 
-func (e *Engine) parYield(st *State, what string) (int, bool) { return 0, false }
+// ---- two-thread kernel (vPar) ----
+// vPar(f, g) runs the two closures as threads whose scheduling points are the sync/atomic
+// intrinsics: before every atomic operation of the running thread the engine forks into "keep
+// running" and "switch to the other thread" (which then must perform at least its pending step).
+// All interleavings of the atomic operations are explored.
+
+type ParState struct {
+	stacks   [2][]*Frame
+	cur      int
+	done     [2]bool
+	mustStep [2]bool
+	main     []*Frame
+	call     ssa.Value
+}
+
+func (p *ParState) clone() *ParState {
+	q := *p
+	for i := 0; i < 2; i++ {
+		q.stacks[i] = make([]*Frame, len(p.stacks[i]))
+		for j, f := range p.stacks[i] {
+			q.stacks[i][j] = f.clone()
+		}
+	}
+	q.main = make([]*Frame, len(p.main))
+	for j, f := range p.main {
+		q.main[j] = f.clone()
+	}
+	return &q
+}
+
 func (e *Engine) parStart(st *State, f *Frame, args []Value, ins ssa.Instruction, ret func(Value) int) int {
-	unsupp("vPar")
-	return stDone
+	fa, fb := args[0].(*FuncVal), args[1].(*FuncVal)
+	p := &ParState{}
+	p.stacks[0] = []*Frame{e.newFrame(fa.fn, nil, fa.bind)}
+	p.stacks[1] = []*Frame{e.newFrame(fb.fn, nil, fb.bind)}
+	p.main = st.frames
+	st.par = p
+	st.frames = p.stacks[0]
+	st.nonReplayable = true
+	return stCont
+}
+
+// parThreadDone is called when the running thread's stack became empty.
+func (e *Engine) parThreadDone(st *State) int {
+	p := st.par
+	p.done[p.cur] = true
+	other := 1 - p.cur
+	if !p.done[other] {
+		p.stacks[p.cur] = nil
+		st.frames = p.stacks[other]
+		p.cur = other
+		p.mustStep[other] = false
+		return stCont
+	}
+	st.frames = p.main
+	st.par = nil
+	mf := st.top()
+	mf.ip++
+	return stCont
+}
+
+func (e *Engine) parYield(st *State, what string) (int, bool) {
+	p := st.par
+	if p == nil {
+		return 0, false
+	}
+	t := p.cur
+	if p.mustStep[t] {
+		p.mustStep[t] = false
+		return 0, false
+	}
+	other := 1 - t
+	if p.done[other] {
+		return 0, false
+	}
+	// fork: the other thread runs now
+	o := st.clone()
+	op := o.par
+	op.stacks[t] = o.frames
+	o.frames = op.stacks[other]
+	op.cur = other
+	op.mustStep[other] = true
+	op.mustStep[t] = true // when this thread resumes it performs the pending operation first
+	o.path = append(o.path, "switch@"+what)
+	e.pushFork(o)
+	st.path = append(st.path, "stay@"+what)
+	return 0, false
 }
